@@ -72,6 +72,37 @@ func (t *verifRecorder) Send(_ context.Context, _ uint8, msg any, _ kex.Session)
 	return protocol.TO2OwnerServiceInfoMsgType, io.NopCloser(&buf), nil
 }
 
+// verifDoneRecorder is a Transport that records every TO2.DeviceServiceInfo
+// message and answers with an empty TO2.OwnerServiceInfo that is marked done
+// once the device has nothing more to send.
+type verifDoneRecorder struct {
+	msgs []deviceServiceInfo
+}
+
+func (t *verifDoneRecorder) Send(_ context.Context, _ uint8, msg any, _ kex.Session) (uint8, io.ReadCloser, error) {
+	reply := ownerServiceInfo{}
+	if m, ok := msg.(deviceServiceInfo); ok {
+		t.msgs = append(t.msgs, m)
+		reply.IsDone = !m.IsMoreServiceInfo
+	}
+	var buf bytes.Buffer
+	if err := cbor.NewEncoder(&buf).Encode(reply); err != nil {
+		return 0, nil, err
+	}
+	return protocol.TO2OwnerServiceInfoMsgType, io.NopCloser(&buf), nil
+}
+
+// VerifExchangeServiceInfo runs exchangeServiceInfo (the caller of the round
+// loop, which turns the negotiated message size into the budget of a round)
+// with the given initial service info against a recording transport and
+// returns the TO2.DeviceServiceInfo messages the device sent.
+func VerifExchangeServiceInfo(ctx context.Context, mtu uint16, r *serviceinfo.ChunkReader) ([]VerifServiceInfoMessage, error) {
+	rec := &verifDoneRecorder{}
+	ctx = contextWithErrMsg(ctx)
+	err := exchangeServiceInfo(ctx, rec, protocol.Nonce{}, protocol.Nonce{}, mtu, r, nil, &TO2Config{})
+	return toVerifMsgs(rec.msgs), err
+}
+
 // VerifServiceInfoMessage is one recorded TO2.DeviceServiceInfo.
 type VerifServiceInfoMessage struct {
 	IsMore bool
